@@ -14,7 +14,7 @@ def genB : Bodies :=
    parseBody WidSkel.listDown, parseBody WidSkel.listUp, parseBody WidSkel.listHome, parseBody WidSkel.listEnd,
    parseBody WidSkel.listPageDown, parseBody WidSkel.listPageUp, parseBody WidSkel.listSetItems,
    parseBody WidSkel.pagerDraw, parseBody WidSkel.pagerLayout, parseBody WidSkel.pagerScrollDown,
-   parseBody WidSkel.pagerScrollUp, parseBody WidSkel.barDraw⟩
+   parseBody WidSkel.pagerScrollUp, parseBody WidSkel.lineAppend, parseBody WidSkel.barDraw⟩
 
 /-- All the regenerated widget bodies (also the ones pinned only syntactically: `New`, `line.append`). -/
 def allBodies : List (List GoSyn.Line) :=
